@@ -19,6 +19,7 @@ var rep = map[string]string{
 	"a": "a", "1": "1", "SP": " ", "TAB": "\t", "NL": "\n", "CR": "\r", "DQ": `"`, "BS": `\`, "DOLLAR": "$", "PCT": "%",
 	"LBRACE": "{", "RBRACE": "}", "HASH": "#", "SLASH": "/", "STAR": "*", "LT": "<", "MINUS": "-", "DOT": ".", "EQ": "=",
 	"NUL": "\x00", "BAD": "\xff", "EXT3": "\u20dd", "ZWJ": "\u200d", "VS": "\ufe0f", "MB": "é", "COMB": "́", "ASTRAL": "😀",
+	"NBSP": "\u00a0", "FF": "\f", "HOPEN": "<<a\n",
 }
 
 // refPos computes the position of byte offset ofs independently: newlines and
